@@ -365,6 +365,22 @@ type Stats struct {
 
 // Cache is a 'cache map'.
 type Cache struct {
+	// opMu is held (shared) by Get, Delete, Evict, EvictNS and EvictAll from
+	// entry to exit, and exclusively by Close while it marks the cache closed:
+	// Close waits for the operations in flight, and no operation starts its
+	// work on a closed cache.
+	//
+	// mu is held (shared) only by Node.unRefExternal, around its look at
+	// 'closed' and the removal of the node from the table, and exclusively by
+	// Close, inside opMu, for the same marking.
+	//
+	// The two must be different locks: an operation that holds opMu calls the
+	// cacher, the cacher releases handles, and Handle.Release takes mu. With
+	// a single RWMutex that was a recursive read lock, which blocks forever
+	// once Close is waiting for the write lock in between. Lock order:
+	// opMu, then mu. Close asks for mu only while it holds opMu exclusively,
+	// that is when no operation, hence no nested reader, is in flight.
+	opMu   sync.RWMutex
 	mu     sync.RWMutex
 	mHead  unsafe.Pointer // *mNode
 	cacher Cacher
@@ -477,8 +493,8 @@ func (r *Cache) SetCapacity(capacity int) {
 // The returned 'cache handle' should be released after use by calling Release
 // method.
 func (r *Cache) Get(ns, key uint64, setFunc func() (size int, value Value)) *Handle {
-	r.mu.RLock()
-	defer r.mu.RUnlock()
+	r.opMu.RLock()
+	defer r.opMu.RUnlock()
 	if r.closed {
 		return nil
 	}
@@ -536,8 +552,8 @@ func (r *Cache) Get(ns, key uint64, setFunc func() (size int, value Value)) *Han
 //
 // Delete return true is such 'cache node' exist.
 func (r *Cache) Delete(ns, key uint64, delFunc func()) bool {
-	r.mu.RLock()
-	defer r.mu.RUnlock()
+	r.opMu.RLock()
+	defer r.opMu.RUnlock()
 	if r.closed {
 		return false
 	}
@@ -576,8 +592,8 @@ func (r *Cache) Delete(ns, key uint64, delFunc func()) bool {
 //
 // Evict return true is such 'cache node' exist.
 func (r *Cache) Evict(ns, key uint64) bool {
-	r.mu.RLock()
-	defer r.mu.RUnlock()
+	r.opMu.RLock()
+	defer r.opMu.RUnlock()
 	if r.closed {
 		return false
 	}
@@ -605,8 +621,8 @@ func (r *Cache) Evict(ns, key uint64) bool {
 // EvictNS evicts 'cache node' with the given namespace. This will
 // simply call Cacher.Evict on all nodes with the given namespace.
 func (r *Cache) EvictNS(ns uint64) {
-	r.mu.RLock()
-	defer r.mu.RUnlock()
+	r.opMu.RLock()
+	defer r.opMu.RUnlock()
 	if r.closed {
 		return
 	}
@@ -629,8 +645,8 @@ func (r *Cache) evictAll() {
 
 // EvictAll evicts all 'cache node'. This will simply call Cacher.EvictAll.
 func (r *Cache) EvictAll() {
-	r.mu.RLock()
-	defer r.mu.RUnlock()
+	r.opMu.RLock()
+	defer r.opMu.RUnlock()
 	if r.closed {
 		return
 	}
@@ -648,7 +664,9 @@ func (r *Cache) EvictAll() {
 // even if the 'node ref' is not zero.
 func (r *Cache) Close(force bool) {
 	var head *mHead
-	// Hold RW-lock to make sure no more in-flight operations.
+	// Hold both RW-locks to make sure no more in-flight operations (opMu)
+	// and no Handle.Release half way through the table (mu).
+	r.opMu.Lock()
 	r.mu.Lock()
 	if !r.closed {
 		r.closed = true
@@ -656,6 +674,7 @@ func (r *Cache) Close(force bool) {
 		atomic.StorePointer(&r.mHead, nil)
 	}
 	r.mu.Unlock()
+	r.opMu.Unlock()
 
 	if head != nil {
 		head.enumerateNodesWithCB(func(nodes []*Node) {
